@@ -291,5 +291,76 @@ theorem rightKerModPrime_complete (rows cols : Nat) (mat : Mat) (v0 : Nat → F)
   · exact ⟨_, rfl⟩
   · rename_i hnone; rw [hnone] at hne; exact absurd rfl hne
 
+/-- converse of completeness: when a vector is returned, the kernel modulo p is exactly the line it spans -/
+theorem rightKerModPrime_line (rows cols : Nat) (mat : Mat) (ker : List Int)
+    (h : rightKerModPrime rows cols mat pn = .ok ker) (v : Nat → F)
+    (hv : ∀ i < rows, dot pn cols mat i v = 0) :
+    ∃ c : F, ∀ s < cols, v s = c * ((ker.getD s 0 : Int) : F) := by
+  obtain ⟨h1, h2⟩ := kerPrefix_both pn rows cols mat cols (le_refl _)
+  rw [show (List.range cols).foldl (kerStep pn rows cols) (kerInit pn rows cols mat) = kerRun pn rows cols mat from rfl] at h1 h2
+  unfold rightKerModPrime at h
+  simp only [h2.nobad, Bool.false_eq_true, if_false] at h
+  split at h
+  · rename_i hk1
+    split at h
+    · rename_i k0 hk0
+      injection h with h
+      have hmem := List.mem_of_getLast? hk0
+      rw [List.mem_filter] at hmem
+      have hk0c : k0 < cols := List.mem_range.mp hmem.1
+      have hd0 : (kerRun pn rows cols mat).d k0 = 0 := by simpa using hmem.2
+      -- k0 is the only free column
+      have hone : ∀ s < cols, (kerRun pn rows cols mat).d s = 0 → s = k0 := by
+        intro s hs hds
+        have hcnt := h2.cnt
+        rw [hk1] at hcnt
+        have hs_in : s ∈ (List.range cols).filter fun s => (kerRun pn rows cols mat).d s == 0 := by
+          simp [List.mem_filter, hs, hds]
+        have hk_in : k0 ∈ (List.range cols).filter fun s => (kerRun pn rows cols mat).d s == 0 := List.mem_of_getLast? hk0
+        generalize ((List.range cols).filter fun s => (kerRun pn rows cols mat).d s == 0) = L at hcnt hs_in hk_in
+        match L, hcnt with
+        | [x], _ =>
+          simp only [List.mem_singleton] at hs_in hk_in
+          rw [hs_in, hk_in]
+      generalize kerRun pn rows cols mat = st at h1 h2 hd0 h hone
+      have hW := h2.rker v hv
+      refine ⟨v k0, ?_⟩
+      intro s hs
+      have hget : ((ker.getD s 0 : Int) : F) =
+          if st.d s > 0 then ((SqiModel.Kernels.get st.W (st.d s - 1) k0 : Int) : F) else if s = k0 then 1 else 0 := by
+        rw [← h]
+        simp only [kerVec, List.getD_eq_getElem?_getD, List.getElem?_map, List.getElem?_range hs, Option.map_some,
+          Option.getD_some]
+        split
+        · rw [emod_cast]
+        · split <;> simp
+      rw [hget]
+      by_cases hds : st.d s > 0
+      · rw [if_pos hds]
+        -- pivot column s with pivot row i: row i of W·v = −v s + W i k0 · v k0
+        have hdj : st.d s = (st.d s - 1) + 1 := by omega
+        obtain ⟨hir, hci, hw1, _⟩ := h1.piv s hs _ hdj
+        have hrow := hW _ hir
+        unfold dot at hrow
+        have hsk : s ≠ k0 := by intro hh; rw [hh] at hds; omega
+        rw [Finset.sum_eq_add s k0 hsk] at hrow
+        · rw [hw1] at hrow; linear_combination -hrow
+        · intro s' hs' hss
+          have hsc := Finset.mem_range.mp hs'
+          by_cases hds' : st.d s' = 0
+          · exact absurd (hone s' hsc hds') hss.2
+          · have hdj' : st.d s' = (st.d s' - 1) + 1 := by omega
+            obtain ⟨_, hcj, _, hoth⟩ := h1.piv s' hsc _ hdj'
+            have hij : st.d s - 1 ≠ st.d s' - 1 := by
+              intro h'; rw [← h'] at hcj; omega
+            rw [hoth _ hir hij]; ring
+        · intro h'; exact absurd (Finset.mem_range.mpr hs) h'
+        · intro h'; exact absurd (Finset.mem_range.mpr hk0c) h'
+      · rw [if_neg hds]
+        have : s = k0 := hone s hs (by omega)
+        rw [if_pos this, this]; ring
+    · exact absurd h (by simp)
+  · exact absurd h (by simp)
+
 end
 end SqiProofs.C17
